@@ -85,7 +85,13 @@ def main():
 
                             @staticmethod
                             def get_data(as_text=True):
-                                return "".join(parts)
+                                canon_parts = []
+                                for ch_ in parts:
+                                    try:
+                                        canon_parts.append(json.loads(ch_))
+                                    except Exception:
+                                        canon_parts.append(ch_)
+                                return json.dumps(canon_parts, sort_keys=True)
                         r = _R
                     elif op == "results":
                         r = c.get("/%s/session-results" % iid)
